@@ -307,7 +307,7 @@ package cache
 //@   safety C15
 //@   requires c != nil && slruinv(c) && item != nil && item in pset(c)
 //@   modifies all cacheItem.parent, all slruItem.protected, elist, erank, llen(c.probationList), llen(c.protectedList)
-//@   ensures slruinv(c) && pset(c) == old(pset(c))
+//@   ensures [C15:slru-keeps-its-representation-and-its-items] slruinv(c) && pset(c) == old(pset(c))
 //@   ensures llen(c.probationList) + llen(c.protectedList) == old(llen(c.probationList) + llen(c.protectedList))
 //@   ensures [slru-access-relinks-only-its-own-elements] forall e ref :: elist(e) != old(elist(e)) ==> (fresh(e) || old(elist(e)) == c.probationList || old(elist(e)) == c.protectedList) && (elist(e) == nil || elist(e) == c.probationList || elist(e) == c.protectedList)
 //@   ensures [slru-access-reorders-only-its-own-elements] forall e ref :: erank(e) != old(erank(e)) ==> fresh(e) || elist(e) == c.probationList || elist(e) == c.protectedList
